@@ -9,6 +9,10 @@
     (`solve_updates_by_union`).
 A `true` means "the code has the shape the model assumes"; an edit of these statements makes the item fail to match
 (ok:false -> broken tie) or flips the boolean (the proof of `C17_extracted_shape` then fails).
+
+* `int_mul_any_is_any` (values/types/num/typecheck.rs) and `tuple_slice_is_homogeneous` (typing/oracle/ctx.rs
+  expr_slice_basic): the two repaired typing rules; `true` = the repaired shape the model follows, `false` = the exact
+  old (unsound) shape, anything else does not match (broken tie).
 """
 
 
@@ -29,4 +33,29 @@ def register(item, z, coq_list, coq_string, num, src):
     item("TypingC", "solve_updates_by_union", tc,
          r"let ty = ctx\.expression_bind_type\(expr\)\?;\s*let t = ctx\.types\.get_mut\(name\)\.unwrap\(\);\s*"
          r"let new = (Ty::union2\(t\.clone\(\), ty\));\s*if &new != t \{\s*changed = true;\s*\*t = new;\s*\}",
+         lambda m: "true", coq_type="bool")
+    # the rule for `int * Any` (values/types/num/typecheck.rs): true = an early return of `Any` precedes the operator classes
+    # (the repaired rule, model flag fixmul = true), false = Mul is only in the class of Add (`float | int`, unsound)
+    item("TypingC", "int_mul_any_is_any", "starlark/src/values/types/num/typecheck.rs",
+         r"return None;\s*\};\s*((?://[^\n]*\n\s*)*if matches!\(\s*\(&lhs, op, &rhs\),\s*\(NumTy::Int, TypingBinOp::Mul, NumRhsTy::Any\)\s*\) \{\s*"
+         r"return Some\(Ty::any\(\)\);\s*\}\s*)?let op = match op \{\s*TypingBinOp::Add\s*\| TypingBinOp::Sub\s*\| TypingBinOp::Mul",
+         lambda m: "true" if m.group(1) else "false", coq_type="bool")
+    # the rule for slicing a tuple type (typing/oracle/ctx.rs expr_slice_basic, the whole function is anchored):
+    # true  = `TyBasic::Tuple(tuple)` slices to `Ty::tuple_of(tuple.item_ty())` (repair 0f4399a; Typing/Model.v slice_basic),
+    # false = the old shape `array.is_tuple() || array.is_list()` returning the array type unchanged (keeps the arity: unsound);
+    # the other branches (StarlarkValue -> v.slice(), list -> itself, else error) must be exactly as the model has them
+    item("TypingC", "tuple_slice_is_homogeneous", "starlark/src/typing/oracle/ctx.rs",
+         r"fn expr_slice_basic\(&self, array: &TyBasic\) -> Result<Ty, TypingNoContextError> \{\s*"
+         r"if let TyBasic::StarlarkValue\(v\) = array \{\s*v\.slice\(\)\s*\} else if "
+         r"(?:(let TyBasic::Tuple\(tuple\) = array \{\s*(?://[^\n]*\n\s*)*Ok\(Ty::tuple_of\(tuple\.item_ty\(\)\)\)\s*"
+         r"\} else if array\.is_list\(\))|(array\.is_tuple\(\) \|\| array\.is_list\(\))) \{\s*"
+         r"Ok\(Ty::basic\(array\.dupe\(\)\)\)\s*\} else \{\s*Err\(TypingNoContextError\)\s*\}\s*\}",
+         lambda m: "true" if m.group(1) else "false", coq_type="bool")
+    # the two helpers the repaired rule is made of, as the model has them (Typing/Model.v item_ty; TTupleOf)
+    item("TypingC", "tuple_item_ty_is_union_of_elems", "starlark/src/typing/tuple.rs",
+         r"pub\(crate\) fn item_ty\(&self\) -> Ty \{\s*match self \{\s*TyTuple::Elems\(elems\) => Ty::unions\(elems\.to_vec\(\)\),\s*"
+         r"TyTuple::Of\(t\) => \(\*\*t\)\.clone\(\),\s*\}\s*\}",
+         lambda m: "true", coq_type="bool")
+    item("TypingC", "tuple_of_is_homogeneous_tuple", "starlark/src/typing/ty.rs",
+         r"pub\(crate\) fn tuple_of\(item: Ty\) -> Self \{\s*Ty::basic\(TyBasic::Tuple\(TyTuple::Of\(ArcTy::new\(item\)\)\)\)\s*\}",
          lambda m: "true", coq_type="bool")
